@@ -4,7 +4,7 @@ import ActixModel.Model.Collect
 /-
 Line-protocol driver for C12.  One case = space separated `key=value` words:
 
-  ex=bytes|string|json|form|tbl|tbs  lim=<n>|dflt  cl=none|bad|<n>  enc=id|gz|df|br|zs
+  ex=bytes|string|json|form|jb|ue|tbl|tbs  lim=<n>|dflt  cl=none|bad|<n>  enc=id|gz|df|br|zs
   body=<spec>  wire=<n>  cuts=<tok,tok,…>
   ex=mp form=A|B|C total=<n>|dflt mem=<n>|dflt fields=<name:len;…> cuts=<…>
   ex=fb lim=<n> body=<spec> cuts=<…>      (`Field::bytes(lim)` on the first of two multipart fields)
@@ -17,6 +17,8 @@ model runs on exactly the harness's chunks (so it also predicts how far the stre
 for the other codings the decompressor is a black box: by `C12_decoded` the result is that of
 any chunking of the plain body, and `pulled`/`eof` are not predicted (`-`).
 Output: `<res> st=<status|-> pulled=<n|-> eof=<0|1|-> osz=<n|->`.
+`jb` / `ue` = the public futures `JsonBody::<String>::new(..)` / `UrlEncoded::<{a}>::new(..)` used
+directly: `lim=dflt` ⇒ polled without `.limit()`, otherwise `.limit(n)` is applied.
 See `harness/src/props/c12.rs` for the implementation side.
 -/
 namespace ActixModel.Drv.C12
@@ -77,6 +79,7 @@ def showOk (b : Bytes) : String := "ok:" ++ toString b.length ++ ":" ++ toString
 
 /-- (result token, status) after the extractor-specific post-processing of a collected body -/
 def post (ex : String) (b : Bytes) : String × String :=
+  let ex := if ex == "jb" then "json" else if ex == "ue" then "form" else ex
   if ex == "string" then
     if b.all (· < 128) then (showOk b, "-") else ("utf8-err", "400")
   else if ex == "json" then
@@ -89,7 +92,8 @@ def post (ex : String) (b : Bytes) : String × String :=
     | none => ("parse-err", "400")
   else (showOk b, "-")
 
-def showRes (ex : String) (r : Res) : String × String :=
+def showRes (ex0 : String) (r : Res) : String × String :=
+  let ex := if ex0 == "jb" then "json" else if ex0 == "ue" then "form" else ex0
   match r with
   | .body b => post ex b
   | .overflow => ("overflow", "413")
@@ -104,12 +108,16 @@ def parseDecl (s : String) : Decl :=
   if s == "none" then .absent else match s.toNat? with | some n => .len n | none => .bad
 
 def defaultLimit (ex : String) : Nat :=
-  if ex == "json" then Consts.jsonDefaultLimit
+  if ex == "json" || ex == "jb" then Consts.jsonDefaultLimit
+  else if ex == "ue" then Consts.urlEncodedDefaultLimit
   else if ex == "form" then Consts.formDefaultLimit
   else Consts.payloadDefaultLimit
 
-def runExtractor (ex : String) (limit : Nat) (clS : String) (items : List Item) : Res :=
-  if ex == "bytes" || ex == "string" then
+def runExtractor (ex : String) (limit : Nat) (clS : String) (items : List Item) (noLimitCall : Bool := false) : Res :=
+  if ex == "jb" then
+    (if noLimitCall then jsonBodyNew limit (parseDecl clS) items else jsonBody limit (parseDecl clS) items)
+  else if ex == "ue" then urlEncoded limit (parseDecl clS) items
+  else if ex == "bytes" || ex == "string" then
     httpMessageBody Consts.payloadDefaultLimit limit (parseDecl clS) items
   else if ex == "json" then jsonBody limit (parseDecl clS) items
   else if ex == "form" then urlEncoded limit (parseDecl clS) items
@@ -141,7 +149,8 @@ def runStream (ws : List String) (ex : String) : String :=
   let toks := ((kv ws "cuts").getD "").splitOn "," |>.filter (· ≠ "")
   let ident := enc == "id" || ex == "tbl" || ex == "tbs"
   let items := if ident then itemsOfCuts toks body else [Item.chunk body]
-  let r := runExtractor ex limit clS items
+  let noLimitCall := (kv ws "lim").getD "dflt" == "dflt"
+  let r := runExtractor ex limit clS items noLimitCall
   let (tok, st0) := showRes ex r
   -- `to_bytes_limited` results are not HTTP errors: no status
   let st := if ex == "tbl" || ex == "tbs" then "-" else st0
@@ -152,7 +161,7 @@ def runStream (ws : List String) (ex : String) : String :=
       let (n, e) := pulled limit items
       (toString n, if e then "1" else "0")
   let osz :=
-    if ex == "form" && ident then
+    if (ex == "form" || ex == "ue") && ident then
       match parseDecl clS, r with
       | .bad, _ => "-"
       | _, .overflow =>
